@@ -370,6 +370,29 @@ Section Analysis.
   Definition ofnat (n : nat) : T := nofZ O (Z.of_nat n).
   Definition sumT (l : list T) (a : T) : T := fold_left (nadd O) l a.
 
+  (* ---- multicolumn grid files (colvar_grid<T>::write_multicol) ----------------------------------- *)
+  (* indices in the order of colvar_grid::incr: row-major, last index fastest *)
+  Fixpoint all_indices (nx : list nat) : list (list nat) :=
+    match nx with
+    | [] => [[]]
+    | n :: r => flat_map (fun i => map (cons i) (all_indices r)) (seq 0 n)
+    end.
+  Inductive mline := MBlank | MData (coords : list T) (vals : list T).
+  (* bin_to_value_scalar: lower + width * (0.5 + i) *)
+  Definition bin_center (lower width : T) (i : nat) : T := nadd O lower (nmul O width (nadd O (nhalf O) (ofnat i))).
+  Fixpoint coords_of (geom : list (T * T)) (ix : list nat) : list T :=
+    match geom, ix with
+    | (l, w) :: g, i :: r => bin_center l w i :: coords_of g r
+    | _, _ => []
+    end.
+  (* a blank line before every record whose last index is 0, then the bin centres and the mult values of the record *)
+  Definition write_multicol (nx : list nat) (geom : list (T * T)) (value : list nat -> list T) : list mline :=
+    flat_map (fun ix => (if (last ix 1 =? 0)%nat then [MBlank] else []) ++ [MData (coords_of geom ix) (value ix)])
+             (all_indices nx).
+  (* reading back: blank lines are separators only; the k-th record belongs to the k-th index *)
+  Definition read_multicol (nx : list nat) (ls : list mline) : list (list nat * list T) :=
+    combine (all_indices nx) (flat_map (fun l => match l with MData _ v => [v] | MBlank => [] end) ls).
+
   (* ---- B. velocity by finite differences ------------------------------------------------------ *)
   Record vstate := mkVS { vs_xold : T; vs_vfdiff : T; vs_vrep : T }.
 
